@@ -32,7 +32,7 @@ ASSUMPTIONS = [
     "a page with no MediaBox anywhere defaults to US Letter (documented fallback)",
     "step budget = 400 monitored events per input byte + 200000",
 ]
-PROBES = ["page tree 70 to 300 levels deep", "page tree more than 1000 levels deep", "/Parent points elsewhere", "walk abandoned, then repeated on the same document", "fault:repeat", "fault:self", "fault:ancestor", "fault:root", "fault:cross", "reversed corners", "rotate negative", "indirect attribute", "inherited from grandparent", "consumer stopped early", "page_numbers with maxpages", "eviction happened"]
+PROBES = ["/Count disagrees with the tree", "page object outside the tree", "page tree 70 to 300 levels deep", "page tree more than 1000 levels deep", "/Parent points elsewhere", "walk abandoned, then repeated on the same document", "fault:repeat", "fault:self", "fault:ancestor", "fault:root", "fault:cross", "reversed corners", "rotate negative", "indirect attribute", "inherited from grandparent", "consumer stopped early", "page_numbers with maxpages", "eviction happened"]
 TIERS = {
     "quick": {"batches": 16, "runs": 700, "budget_s": 90},
     "thorough": {"batches": 128, "runs": 800, "budget_s": 900},
@@ -293,6 +293,10 @@ def serialise(t, ctx, root, nodes, counter):
         if n.kind == "pages":
             d[b"Kids"] = indirect([Ref(c.oid, 0) for c in n.kids], "ind.kids")
             d[b"Count"] = sum(1 for c in n.kids if c.kind == "page")
+            if t.coin(12, 100, "count.stale"):
+                # /Count is a hint other readers use: stale, inflated or nonsense, it decides nothing about the pages
+                d[b"Count"] = t.pick([d[b"Count"] + 1, d[b"Count"] + 7, 0, -1, 10 ** 6, d[b"Count"] * 2 + 1], "count.value")
+                ctx.probe("/Count disagrees with the tree")
         else:
             i = page_index.get(n.oid)
             lab = label_of(i) if i is not None else b"zz"
@@ -304,6 +308,14 @@ def serialise(t, ctx, root, nodes, counter):
             objects[cid] = docs.content_stream(content, flate=t.coin(30, 100, "content.flate"))
             d[b"Contents"] = Ref(cid, 0) if t.coin(80, 100, "content.ref") else [Ref(cid, 0)]
         objects[n.oid] = d
+    if any(n.kind == "page" for n in nodes.values()) and t.coin(12, 100, "orphan.page"):
+        # a page object that no /Kids array mentions (left behind by an editor): it is not a page of the document
+        counter[0] += 1
+        oid = counter[0]
+        counter[0] += 1
+        objects[counter[0]] = docs.content_stream(b"BT /F1 8 Tf 10 10 Td (orphan) Tj ET")
+        objects[oid] = {b"Type": Name(b"Page"), b"Parent": Ref(min(n.oid for n in nodes.values() if n.kind == "pages"), 0), b"MediaBox": [0, 0, 111, 222], b"Contents": Ref(counter[0], 0), b"Resources": {b"Font": {b"F1": docs.std_font(b"Courier")}}}
+        ctx.probe("page object outside the tree")
     form = t.pick(["table", "table", "stream"], "form")
     pack = [i for i in objects if t.coin(50, 100, "pack")] if form == "stream" else None
     fw = docs.build_pdf(objects, 1, form=form, pack=pack, order=t.shuffle(sorted(objects), "objorder"))
